@@ -565,7 +565,7 @@ func build(c *harness.Case, rules polprog.Rules, ids polexec.IDs, opts polexec.O
 				}
 			}
 			key := "verifier-rejects-program"
-			if le, ok := err.(*polexec.LoadError); ok && strings.Contains(le.VerifierLog, "unreachable insn") && len(progs) > 1 {
+			if le, ok := err.(*polexec.LoadError); ok && isElidedSplitTrailer(le, progs) {
 				key = "verifier-rejects-program:unreachable-insn-after-split"
 				lastBuildFailure = "unreachable-after-split"
 			}
@@ -597,6 +597,26 @@ func build(c *harness.Case, rules polprog.Rules, ids polexec.IDs, opts polexec.O
 	}
 	c.Count("ip_set_entries", int64(nent))
 	return e, true
+}
+
+// isElidedSplitTrailer recognises exactly the listed known finding: the program was split, the rejected
+// sub-program is not the last one, the verifier says "unreachable insn N", N is the first of the last two
+// instructions, and the sub-program ends with two consecutive "r0 = <drop>; exit" pairs -- i.e. the split
+// trailer (r0 = k; goto next-program; ... tail call) was elided as dead code because the split point
+// followed a tier that ends with deny and that nothing jumps past, and only the trailer's second exit
+// target survived.  Any other rejection keeps the generic key.
+func isElidedSplitTrailer(le *polexec.LoadError, progs []asm.Insns) bool {
+	if len(progs) < 2 || le.Index >= len(progs)-1 {
+		return false
+	}
+	p := progs[le.Index]
+	n := len(p)
+	if n < 4 || !strings.Contains(le.VerifierLog, fmt.Sprintf("unreachable insn %d", n-2)) {
+		return false
+	}
+	isMovR0 := func(in asm.Insn) bool { return in.Instruction[0] == 0xb7 && in.Instruction[1]&0x0f == 0 }
+	isExit := func(in asm.Insn) bool { return in.Instruction[0] == 0x95 }
+	return isMovR0(p[n-4]) && isExit(p[n-3]) && isMovR0(p[n-2]) && isExit(p[n-1])
 }
 
 // disasm renders the last n instructions of a program with the builder's labels and comments.
